@@ -568,6 +568,13 @@ MG2:
       } else { goto Ret; };
     } else if (to.r = "up") {
       if (m.t = "H") {
+mg_late_ld:
+        \* merge.rs:179-187 (fix F4): a member greeting after the output is over is disposed at once
+        if (S(to).ended) {
+          call Deliver("S", m.tb, Msg("T"));
+mg_late_ret:
+          goto Ret;
+        };
 mg_tb_st:
         st[to.n][to.s].tbs[to.i] := m.tb;
 mg_start_fa:
@@ -2224,7 +2231,7 @@ DDisp(self) == /\ pc[self] = "DDisp"
                                                                                                                                                         panicked >>
                                                                                                                                    ELSE /\ IF to[self].r = "up"
                                                                                                                                               THEN /\ IF m[self].t = "H"
-                                                                                                                                                         THEN /\ pc' = [pc EXCEPT ![self] = "mg_tb_st"]
+                                                                                                                                                         THEN /\ pc' = [pc EXCEPT ![self] = "mg_late_ld"]
                                                                                                                                                               /\ UNCHANGED << obs, 
                                                                                                                                                                               panicked >>
                                                                                                                                                          ELSE /\ IF m[self].t = "D"
@@ -3052,7 +3059,7 @@ DDisp(self) == /\ pc[self] = "DDisp"
                                                                                                                                                                                                                           sx, 
                                                                                                                                                                                                                           ch >>
                                                                                                                                                                                           ELSE /\ Assert(FALSE, 
-                                                                                                                                                                                                         "Failure of assertion at line 1042, column 5.")
+                                                                                                                                                                                                         "Failure of assertion at line 1049, column 5.")
                                                                                                                                                                                                /\ pc' = [pc EXCEPT ![self] = "Ret"]
                                                                                                                                                                                                /\ UNCHANGED << st, 
                                                                                                                                                                                                                tasks, 
@@ -4122,6 +4129,44 @@ MG9(self) == /\ pc[self] = "MG9"
                              panicked, done, stack, fr, to, m, lg, sx, ch, lv, 
                              snap, ka, ca, gx, ex, nx, fx, bx, bc, tx, ta, tc, 
                              ft, act, sj >>
+
+mg_late_ld(self) == /\ pc[self] = "mg_late_ld"
+                    /\ IF S(to[self]).ended
+                          THEN /\ /\ fr' = [fr EXCEPT ![self] = "S"]
+                                  /\ m' = [m EXCEPT ![self] = Msg("T")]
+                                  /\ stack' = [stack EXCEPT ![self] = << [ procedure |->  "Deliver",
+                                                                           pc        |->  "mg_late_ret",
+                                                                           lg        |->  lg[self],
+                                                                           sx        |->  sx[self],
+                                                                           jx        |->  jx[self],
+                                                                           ch        |->  ch[self],
+                                                                           lv        |->  lv[self],
+                                                                           snap      |->  snap[self],
+                                                                           fr        |->  fr[self],
+                                                                           to        |->  to[self],
+                                                                           m         |->  m[self] ] >>
+                                                                       \o stack[self]]
+                                  /\ to' = [to EXCEPT ![self] = m[self].tb]
+                               /\ lg' = [lg EXCEPT ![self] = FALSE]
+                               /\ sx' = [sx EXCEPT ![self] = 0]
+                               /\ jx' = [jx EXCEPT ![self] = 0]
+                               /\ ch' = [ch EXCEPT ![self] = ""]
+                               /\ lv' = [lv EXCEPT ![self] = 0]
+                               /\ snap' = [snap EXCEPT ![self] = <<>>]
+                               /\ pc' = [pc EXCEPT ![self] = "DStart"]
+                          ELSE /\ pc' = [pc EXCEPT ![self] = "mg_tb_st"]
+                               /\ UNCHANGED << stack, fr, to, m, lg, sx, jx, 
+                                               ch, lv, snap >>
+                    /\ UNCHANGED << st, nd, sk, pi, tasks, now, obs, script, 
+                                    ntop, panicked, done, ka, ca, gx, ex, nx, 
+                                    fx, bx, bc, tx, ta, tc, ft, act, sj >>
+
+mg_late_ret(self) == /\ pc[self] = "mg_late_ret"
+                     /\ pc' = [pc EXCEPT ![self] = "Ret"]
+                     /\ UNCHANGED << st, nd, sk, pi, tasks, now, obs, script, 
+                                     ntop, panicked, done, stack, fr, to, m, 
+                                     lg, sx, jx, ch, lv, snap, ka, ca, gx, ex, 
+                                     nx, fx, bx, bc, tx, ta, tc, ft, act, sj >>
 
 mg_tb_st(self) == /\ pc[self] = "mg_tb_st"
                   /\ st' = [st EXCEPT ![to[self].n][to[self].s].tbs[to[self].i] = m[self].tb]
@@ -5541,6 +5586,7 @@ Deliver(self) == DStart(self) \/ DDisp(self) \/ K1(self) \/ K2(self)
                     \/ SK1(self) \/ SK2(self) \/ SK3(self) \/ SK4(self)
                     \/ SK6(self) \/ SK5(self) \/ SK7(self) \/ SK8(self)
                     \/ MG1(self) \/ MG2(self) \/ MG8(self) \/ MG9(self)
+                    \/ mg_late_ld(self) \/ mg_late_ret(self)
                     \/ mg_tb_st(self) \/ mg_start_fa(self)
                     \/ mg_greet(self) \/ MG3(self) \/ mg_data(self)
                     \/ MG4(self) \/ mg_ended_st(self) \/ mg_sib_ld(self)
